@@ -73,7 +73,8 @@ class Ob:
 
     @property
     def key(self) -> str:
-        return f'{self.rule}|{self.construct}'
+        # (a function read through its wrapping decorator is indexed as `f` + `f__undecorated`: the same construct for the purposes of a finding's identity)
+        return f'{self.rule}|{self.construct}'.replace('__undecorated', '')
 
     def as_dict(self) -> Dict[str, Any]:
         d = {'rule': self.rule, 'construct': self.construct, 'status': self.status,
